@@ -449,6 +449,69 @@ MUTANTS = [
       "                    raise BadHashError(\"hash number out of range\")\n                if self[i]:\n", None),
     M("vanish-set-hashes-rollback-loop", HT, "            for i in remove_upon_failure:\n                self[i] = None\n            raise\n",
       "            remove_upon_failure.clear()\n            raise\n", "ANALYSIS-ERROR"),
+    # ---- C10.15 a share is judged on its own checks only (availability: k intact shares => the read succeeds)
+    M("sibling-of-corrupt-share-not-recorded", SM,
+      "        # Add the info to our servermap.\n        timestamp = time.time()\n",
+      "        if server in self._bad_servers:\n"
+      "            self.log(\"but this server already gave us a corrupt share\", parent=lp, level=log.UNUSUAL)\n"
+      "            return verinfo\n"
+      "        # Add the info to our servermap.\n        timestamp = time.time()\n", "C10.15"),
+    M("sibling-of-corrupt-share-raises", SM,
+      "        # Add the info to our servermap.\n        timestamp = time.time()\n",
+      "        if any(s == server for (s, sh) in self._servermap.get_bad_shares()):\n"
+      "            raise CorruptShareError(server, shnum, \"server is known to hold corrupt shares\")\n"
+      "        # Add the info to our servermap.\n        timestamp = time.time()\n", "C10.15"),
+    M("answer-of-bad-server-skipped-in-loop", SM,
+      "        for shnum,datav in list(datavs.items()):\n            data = datav[0]\n            reader = MDMFSlotReadProxy(ss,\n",
+      "        for shnum,datav in list(datavs.items()):\n            if server in self._bad_servers:\n                continue\n"
+      "            data = datav[0]\n            reader = MDMFSlotReadProxy(ss,\n", "C10.15"),
+    M("only-first-share-of-an-answer-processed", SM,
+      "            ds.append(dl)\n        # dl is a deferred list that will fire when all of the shares\n",
+      "            ds.append(dl)\n            if server in self._good_servers:\n                break\n"
+      "        # dl is a deferred list that will fire when all of the shares\n", "C10.15"),
+    M("corrupt-share-takes-whole-server-out-of-map", SM,
+      "        key = (server, shnum) # record checkstring\n        self._bad_shares[key] = checkstring\n"
+      "        self._known_shares.pop(key, None)\n",
+      "        key = (server, shnum) # record checkstring\n        self._bad_shares[key] = checkstring\n"
+      "        for other in [k for k in self._known_shares if k[0] == server]:\n"
+      "            self._known_shares.pop(other, None)\n", "C10.15"),
+    M("corrupt-share-marks-siblings-bad", SM,
+      "        self._servermap.mark_bad_share(server, shnum, checkstring)\n        self._servermap.add_problem(f)\n",
+      "        for (s, sh) in [k for k in self._servermap.get_known_shares() if k[0] == server] + [(server, shnum)]:\n"
+      "            self._servermap.mark_bad_share(s, sh, checkstring)\n        self._servermap.add_problem(f)\n", "C10.15"),
+    M("add-new-share-ignores-flagged-server", SM,
+      "        key = (server, shnum)\n        self._bad_shares.pop(key, None)\n",
+      "        key = (server, shnum)\n        if server in self.unreachable_servers:\n            return\n"
+      "        self._bad_shares.pop(key, None)\n", "C10.15"),
+    M("benign-bad-share-test-inverted", SM,
+      "        if (server, shnum) in self._servermap.get_bad_shares():\n"
+      "            # we've been told that the rest of the data in this share is\n"
+      "            # unusable, so don't add it to the servermap.\n"
+      "            self.log(\"but we've been told this is a bad share\",\n"
+      "                     parent=lp, level=log.UNUSUAL)\n"
+      "            return verinfo\n"
+      "\n"
+      "        # Add the info to our servermap.\n"
+      "        timestamp = time.time()\n"
+      "        self._servermap.add_new_share(server, shnum, verinfo, timestamp)\n"
+      "        self._servers_with_shares.add(server)\n",
+      "        share_key = (server, shnum)\n"
+      "        bad = self._servermap.get_bad_shares()\n"
+      "        if share_key not in bad:\n"
+      "            # Add the info to our servermap.\n"
+      "            self._servermap.add_new_share(server, shnum, verinfo, time.time())\n"
+      "            self._servers_with_shares.add(server)\n"
+      "        else:\n"
+      "            self.log(\"but we've been told this is a bad share\",\n"
+      "                     parent=lp, level=log.UNUSUAL)\n", None),
+    M("benign-empty-answer-returns-early", SM,
+      "        ds = []\n\n        for shnum,datav in list(datavs.items()):\n",
+      "        ds = []\n        if not datavs:\n            _done_processing()\n            return self._check_for_done(None)\n"
+      "\n        for shnum,datav in list(datavs.items()):\n", None),
+    M("benign-mark-bad-share-del", SM,
+      "        self._bad_shares[key] = checkstring\n        self._known_shares.pop(key, None)\n",
+      "        self._bad_shares[key] = checkstring\n        if (server, shnum) in self._known_shares:\n"
+      "            del self._known_shares[(server, shnum)]\n", None),
     # ---- vanished anchor
     M("vanish-validate-block", RET, "    async def _validate_block(self, results, segnum, reader, server, started):",
       "    async def _validate_blockX(self, results, segnum, reader, server, started):", "ANALYSIS-ERROR"),
